@@ -7,7 +7,7 @@ use serde_json::{json, Value};
 use simcore::kproto::*;
 use simcore::{drop_chunks, Fnv, Outcome, Rng};
 
-use super::c16::{end_of_run_checks, Parsed, RX};
+use super::c16::{end_of_run_checks, Parsed};
 use super::pty::{run_child, Spec};
 use super::vt::Vt;
 use super::{exe, panic_location, parse_log, LogEv};
@@ -32,6 +32,13 @@ pub struct K17 {
     pub reconnect_at_us: Option<u64>,
     /// sub-batch that only looks at the exit status of an invalid command line
     pub invalid_cli: Option<Vec<String>>,
+    /// receiver position (--lat / --long)
+    #[serde(default = "default_rx")]
+    pub rx: (f64, f64),
+}
+
+fn default_rx() -> (f64, f64) {
+    (35.0, -80.0)
 }
 
 pub const SIZES: [(u16, u16); 12] = [(1, 1), (2, 2), (5, 3), (10, 4), (12, 6), (30, 8), (49, 4), (80, 24), (80, 24), (120, 40), (120, 40), (300, 100)];
@@ -96,7 +103,7 @@ pub const INVALID_CLI: [&[&str]; 18] = [
 pub fn generate(rng: &mut Rng, fault_free: bool) -> K17 {
     if !fault_free && rng.chance(0.08) {
         let a = *rng.pick(&INVALID_CLI);
-        return K17 { args: vec![], cols: 80, rows: 24, refused_first: 0, lines: vec![], events: vec![], quit_at_us: 100_000, quit_ctrl_c: false, proc_delay_us: vec![], reconnect_at_us: None, invalid_cli: Some(a.iter().map(|s| s.to_string()).collect()) };
+        return K17 { args: vec![], cols: 80, rows: 24, refused_first: 0, lines: vec![], events: vec![], quit_at_us: 100_000, quit_ctrl_c: false, proc_delay_us: vec![], reconnect_at_us: None, invalid_cli: Some(a.iter().map(|s| s.to_string()).collect()), rx: (35.0, -80.0) };
     }
     let (cols, rows) = if fault_free {
         *rng.pick(&[(80u16, 24u16), (120, 40)])
@@ -108,6 +115,8 @@ pub fn generate(rng: &mut Rng, fault_free: bool) -> K17 {
     } else {
         *rng.pick(&SIZES)
     };
+    #[allow(non_snake_case)]
+    let RX: (f64, f64) = if fault_free { (35.0, -80.0) } else { *rng.pick(&[(35.0, -80.0), (35.0, -80.0), (-35.0, 150.0), (0.0, 0.0), (89.5, 10.0), (-60.0, -179.9), (52.0, 4.0)]) };
     let mut args: Vec<String> = vec![];
     for f in ["--touchscreen", "--disable-lat-long", "--disable-callsign", "--disable-icao", "--disable-heading", "--disable-track", "--limit-parsing", "--retry-tcp"] {
         if rng.chance(if f == "--touchscreen" { 0.4 } else { 0.2 }) {
@@ -125,8 +134,17 @@ pub fn generate(rng: &mut Rng, fault_free: bool) -> K17 {
     if rng.chance(0.4) {
         args.push("--locations".into());
         for i in 0..1 + rng.below(3) {
-            let name = if rng.chance(0.4) { (*rng.pick(&["Troms\u{f8}", "Besan\u{e7}on", "\u{141}\u{f3}d\u{17a}", "\u{6771}\u{4eac}", "Z\u{fc}rich", "K\u{f8}benhavn Lufthavn", "\u{e9}", "a b"])).to_string() } else { format!("L{i}") };
-            args.push(format!("({name},{:.2},{:.2})", RX.0 + rng.f64_range(-0.5, 0.5), RX.1 + rng.f64_range(-0.5, 0.5)));
+            let name = if rng.chance(0.4) { (*rng.pick(&["Troms\u{f8}", "Besan\u{e7}on", "\u{141}\u{f3}d\u{17a}", "\u{6771}\u{4eac}", "Z\u{fc}rich", "K\u{f8}benhavn Lufthavn", "\u{e9}", "a b", ""])).to_string() } else { format!("L{i}") };
+            if rng.chance(0.15) {
+                // legal but extreme coordinates (poles, antimeridian, the receiver itself)
+                let la = *rng.pick(&["90", "-90", "0", "89.999", "-0.0"]);
+                let lo = *rng.pick(&["180", "-180", "0", "179.999", "360"]);
+                args.push(format!("({name},{la},{lo})"));
+            } else if rng.chance(0.1) {
+                args.push(format!("({name},{},{})", RX.0, RX.1));
+            } else {
+                args.push(format!("({name},{:.2},{:.2})", (RX.0 + rng.f64_range(-0.5, 0.5)).clamp(-90.0, 90.0), RX.1 + rng.f64_range(-0.5, 0.5)));
+            }
         }
     }
     let deep = simcore::deep() && rng.chance(0.33);
@@ -141,15 +159,17 @@ pub fn generate(rng: &mut Rng, fault_free: bool) -> K17 {
         let mut t = from;
         let mut odd = false;
         let mut ctr = 0u32;
-        let lat = RX.0 + rng.f64_range(-0.8, 0.8);
-        let lon = RX.1 + rng.f64_range(-0.8, 0.8);
+        // some aircraft sit exactly on the receiver (distance 0)
+        let on_top = rng.chance(0.1);
+        let lat = if on_top { RX.0 } else { (RX.0 + rng.f64_range(-0.8, 0.8)).clamp(-89.9, 89.9) };
+        let lon = if on_top { RX.1 } else { RX.1 + rng.f64_range(-0.8, 0.8) };
         while t < to && lines.len() < if deep { 400 } else { 150 } {
             ctr += 1;
             let me = match ctr % 4 {
                 0 => wire::me_identification(4, 0, &format!("AC{a}X{}", ctr % 10)),
                 1 | 2 => {
                     odd = !odd;
-                    let (yz, xz) = wire::cpr_encode(lat + 0.0005 * ctr as f64, lon, odd);
+                    let (yz, xz) = wire::cpr_encode(if on_top { lat } else { (lat + 0.0005 * ctr as f64).clamp(-89.95, 89.95) }, lon, odd);
                     wire::me_airborne_position(11, 0, 0, wire::ac12_q(10_000 + 1000 * a as i32), false, odd, yz, xz)
                 }
                 _ => wire::me_velocity(1, 0, wire::sub_ground_speed(0, 100 + ctr as u16, 0, 200), 0, 0, 10, 0, 3),
@@ -211,7 +231,7 @@ pub fn generate(rng: &mut Rng, fault_free: bool) -> K17 {
     let refused_first = if !fault_free && rng.chance(0.2) { 1 + rng.below(8) as u32 } else { 0 };
     let proc_delay_us = if !fault_free && rng.chance(0.2) { (0..6).map(|_| *rng.pick(&[0u64, 0, 30_000, 200_000])).collect() } else { vec![] };
     let reconnect_at_us = if !fault_free && args.iter().any(|a| a == "--retry-tcp") && rng.chance(0.6) { Some(100_000 + rng.below(duration_us)) } else { None };
-    K17 { args, cols, rows, refused_first, lines, events, quit_at_us, quit_ctrl_c: rng.chance(0.3), proc_delay_us, reconnect_at_us, invalid_cli: None }
+    K17 { args, cols, rows, refused_first, lines, events, quit_at_us, quit_ctrl_c: rng.chance(0.3), proc_delay_us, reconnect_at_us, invalid_cli: None, rx: RX }
 }
 
 pub fn compile(sc: &K17) -> KChild {
@@ -259,7 +279,7 @@ pub fn execute(sc: &K17) -> Outcome {
         }
         return out;
     }
-    let mut args: Vec<String> = vec!["--lat=35.0".into(), "--long=-80.0".into(), "--log-folder=logs".into()];
+    let mut args: Vec<String> = vec![format!("--lat={}", sc.rx.0), format!("--long={}", sc.rx.1), "--log-folder=logs".into()];
     args.extend(sc.args.iter().cloned());
     let run = run_child(&Spec { exe: &exe("radar"), args, child: &child, tty: Some((sc.cols, sc.rows)), wall_limit: Duration::from_secs(30) });
     let mut vt = Vt::new();
@@ -432,7 +452,7 @@ pub fn shrink(sc: &K17) -> Vec<K17> {
 
 pub fn describe(sc: &K17) -> Value {
     json!({
-        "args": sc.args, "terminal": format!("{}x{}", sc.cols, sc.rows), "refused_connects_first": sc.refused_first,
+        "receiver": sc.rx, "args": sc.args, "terminal": format!("{}x{}", sc.cols, sc.rows), "refused_connects_first": sc.refused_first,
         "traffic_lines": sc.lines.len(), "events_total": sc.events.len(),
         "first_events": sc.events.iter().take(12).map(|e| format!("t={}us {:?}", e.at_us, e.ev)).collect::<Vec<_>>(),
         "quit": format!("{} at {}us", if sc.quit_ctrl_c { "ctrl-c" } else { "q" }, sc.quit_at_us),
